@@ -459,6 +459,15 @@ func (c *c02) run(jc J2TCase) {
 	}
 	one("DoInto+prefix", c.caps[len(c.caps)/2])
 	one("DoInto+prefix", 0)
+	// a converter made with other options and then given these through SetOptions behaves like one made with them
+	opts := conv.Options{String2Int64: jc.O.S2i, NoBase64Binary: jc.O.Nob64, DisallowUnknownField: jc.O.Disallow,
+		WriteRequireField: jc.O.Wreq, WriteDefaultField: jc.O.Wdef, WriteOptionalField: jc.O.Wopt, EnableValueMapping: jc.O.Vm}
+	cv = j2t.NewBinaryConv(conv.Options{})
+	cv.SetOptions(opts)
+	one("Do", 0)
+	for _, cp := range c.caps {
+		one("DoInto", cp)
+	}
 	tb := B(text)
 	c.out.Emit(map[string]interface{}{"ev": "J2T", "d": d, "s2i": jc.O.S2i, "nob64": jc.O.Nob64, "disallow": jc.O.Disallow,
 		"wreq": jc.O.Wreq, "wdef": jc.O.Wdef, "wopt": jc.O.Wopt, "optbm": jc.O.Optbm, "usedflt": jc.O.Usedflt, "vm": jc.O.Vm,
